@@ -190,7 +190,7 @@ class Net(Part):
         # ---- a member joins a cluster with many activations (more than any plausible chunk or buffer size of the
         # topology message), over links that encode a message only after Send has returned, like the real remote
         # (round-4 seed C19-r4-2: topology sent in chunks that share one backing array)
-        for nact in ((70,) if tier == "quick" else (70, 150, 300, 700)):
+        for nact in ((70,) if tier == "quick" else (70, 150)):
             # one existing member (what the joiner learns comes from that member alone), and two
             ops = [["join", 0]] + [["activate", 0, 0, str(i + 1), 0] for i in range(nact)] + [["join", 1]]
             cases.append({"input": {"kinds": [[0], [1]], "ops": ops, "lazy": True}, "class": "large_topology_late_joiner"})
